@@ -23,6 +23,19 @@ from pytestarch.eval_structure.evaluable_structures import AbstractGraph
 from pytestarch.eval_structure.utils import filter_to_module
 
 
+def _unique_in_stable_order(filters: Iterable[ModuleFilter]) -> list[ModuleFilter]:
+    """Removes duplicates. The order (and with it e.g. which of several unknown modules is reported first) depends
+    neither on the order in which the filters were listed nor on the hash seed."""
+    return sorted(
+        set(filters),
+        key=lambda f: (
+            f.identifier,
+            f.identifier_is_parent_module,
+            f.identifier_is_regex,
+        ),
+    )
+
+
 class EvaluableArchitectureGraph(EvaluableArchitecture):
     """Abstract implementation of an evaluable object that is based on a graph structure."""
 
@@ -37,8 +50,8 @@ class EvaluableArchitectureGraph(EvaluableArchitecture):
         result = {}
 
         # remove any duplicates
-        dependents_set = set(dependents)
-        dependent_upons_set = set(dependent_upons)
+        dependents_set = _unique_in_stable_order(dependents)
+        dependent_upons_set = _unique_in_stable_order(dependent_upons)
 
         for dependent, dependent_upon in product(dependents_set, dependent_upons_set):
             dependency = get_dependency_between_modules(
@@ -56,8 +69,8 @@ class EvaluableArchitectureGraph(EvaluableArchitecture):
         dependent_upons: Sequence[ModuleFilter],
     ) -> NotExplicitlyRequestedDependenciesByBaseModule:
         # remove any duplicates
-        dependents_set = set(dependents)
-        dependent_upons_set = set(dependent_upons)
+        dependents_set = _unique_in_stable_order(dependents)
+        dependent_upons_set = _unique_in_stable_order(dependent_upons)
 
         result = {}
 
@@ -75,8 +88,8 @@ class EvaluableArchitectureGraph(EvaluableArchitecture):
         dependent_upons: Sequence[ModuleFilter],
     ) -> NotExplicitlyRequestedDependenciesByBaseModule:
         # remove any duplicates
-        dependents_set = set(dependents)
-        dependent_upons_set = set(dependent_upons)
+        dependents_set = _unique_in_stable_order(dependents)
+        dependent_upons_set = _unique_in_stable_order(dependent_upons)
 
         result = {}
 
